@@ -793,7 +793,7 @@ func (c *c18) decodeOne(r *fw.Rec, rng *rand.Rand, viaScript bool) {
 	case k < 9:
 		// scalar-focused mutations: number and literal spellings
 		base := pick(rng, []string{"01", "-01", "-", "1.", ".5", "1e", "1e+", "+1", "1.e5", "-00.5", "0x10", "1_0", "Infinity", "NaN", "nul", "tru", "True", "[1,]", "{\"a\":1,}", "[,1]",
-			"{\"a\"}", "{a:1}", "'a'", "\"\\x41\"", "\"\\u12\"", "\"\\ud800\\u\"", "\"\t\"", "\"\n\"", "1 2", "[] []", "", " ", "\"abc", "[", "{", "[[[[[[]]]]]]", "-0", "-0.0e-0", "1E+00", "\"\\u0000\"",
+			"{\"a\"}", "{a:1}", "'a'", "\"\\x41\"", "\"\\u12\"", "\"\\ud800\\u\"", "\"\\ud83d\\ndead\"", "\"\\ud83d\\tdeaf\"", "\"\\udbff\\\\dfff\"", "\"\\ud800\\/dc00\"", "\"\\ud83d\\ude00\"", "\"\\ud83d\\u0041\"", "\"\\ud83dxdead\"", "\"\\ude00\\ud83d\"", "{\"\\ud83d\\ndead\":1}", "\"\t\"", "\"\n\"", "1 2", "[] []", "", " ", "\"abc", "[", "{", "[[[[[[]]]]]]", "-0", "-0.0e-0", "1E+00", "\"\\u0000\"",
 			"{\"\":\"\"}", "\ufeff1", "1\x00", "// c\n1", "[1 2]", "{\"a\":1 \"b\":2}", "-007", "{\"a\":-007}", "00", "0.0.0", "1e5e5", "--1"})
 		text = []byte(base)
 		if rng.Intn(3) == 0 {
